@@ -25,6 +25,8 @@ fn prop_def(id: &str) -> Option<PropDef> {
         "C01" => PropDef { parts: props::c01::parts(), rule: props::c01::RULE, assumptions: props::c01::ASSUMPTIONS, literal: Some(props::c01::check_literal) },
         "C02" => PropDef { parts: props::c02::parts(), rule: props::c02::RULE, assumptions: props::c02::ASSUMPTIONS, literal: None },
         "C15" => PropDef { parts: props::c15::parts(), rule: props::c15::RULE, assumptions: props::c15::ASSUMPTIONS, literal: Some(props::c15::check_literal) },
+        "C09" => PropDef { parts: props::c09::parts(), rule: props::c09::RULE, assumptions: props::c09::ASSUMPTIONS, literal: None },
+        "C12" => PropDef { parts: props::c12::parts(), rule: props::c12::RULE, assumptions: props::c12::ASSUMPTIONS, literal: None },
         _ => return None,
     })
 }
